@@ -368,6 +368,8 @@ struct WorkerAcc<Sc> {
     det_mismatch: Vec<u64>,
     samples: Vec<(u64, Sc)>,
     per_sub: BTreeMap<usize, u64>,
+    /// (run index, event-log hash) of every run: the batch digest must not depend on worker count
+    hashes: Vec<(u64, u64)>,
 }
 
 pub struct BatchReport {
@@ -445,6 +447,7 @@ pub fn run_batch<S: Sim>(sim: &S, opts: &Opts) -> BatchReport {
                     det_mismatch: Vec::new(),
                     samples: Vec::new(),
                     per_sub: BTreeMap::new(),
+                    hashes: Vec::new(),
                 };
                 loop {
                     let i = next.fetch_add(1, Ordering::Relaxed);
@@ -462,6 +465,7 @@ pub fn run_batch<S: Sim>(sim: &S, opts: &Opts) -> BatchReport {
                     let sc = sim.plan(&mut rng, sub);
                     let out = execute_caught(sim, &sc, &ctx);
                     acc.evaluations += 1;
+                    acc.hashes.push((i, out.log_hash ^ out.signature.rotate_left(32)));
                     *acc.per_sub.entry(sub).or_default() += 1;
                     acc.stats.merge(&out.stats);
                     acc.signatures.insert(out.signature);
@@ -507,7 +511,9 @@ pub fn run_batch<S: Sim>(sim: &S, opts: &Opts) -> BatchReport {
     let mut det_mismatch: Vec<u64> = Vec::new();
     let mut samples: Vec<(u64, S::Scenario)> = Vec::new();
     let mut per_sub: BTreeMap<usize, u64> = BTreeMap::new();
+    let mut hashes: Vec<(u64, u64)> = Vec::new();
     for a in accs {
+        hashes.extend(a.hashes.iter().copied());
         stats.merge(&a.stats);
         evaluations += a.evaluations;
         signatures.extend(a.signatures);
@@ -522,6 +528,13 @@ pub fn run_batch<S: Sim>(sim: &S, opts: &Opts) -> BatchReport {
     }
     violations.sort_by_key(|(i, _, _)| *i);
     samples.sort_by_key(|(i, _)| *i);
+    hashes.sort();
+    let mut batch = Fnv::default();
+    for (i, h) in &hashes {
+        batch.u64(*i);
+        batch.u64(*h);
+    }
+    let batch_hash = batch.0;
     det_mismatch.sort();
 
     let mut exit_code = 0;
@@ -669,6 +682,7 @@ pub fn run_batch<S: Sim>(sim: &S, opts: &Opts) -> BatchReport {
                 "distinct_signature_measure": "FNV hash of each run's ordering skeleton: sequence of (actor, message kind, fault tag), values and timestamps stripped",
                 "components": {"real": sim.components_real(), "stub": sim.components_stub()},
                 "determinism_recheck": {"runs": det_runs, "mismatches": det_mismatch.len()},
+                "batch_event_log_digest": format!("{batch_hash:016x}"),
                 "known_findings_seen": stats.known,
                 "replay_files": replay_files,
                 "workers": opts.workers,
@@ -683,13 +697,14 @@ pub fn run_batch<S: Sim>(sim: &S, opts: &Opts) -> BatchReport {
         }
     }
     println!(
-        "done property={} evaluations={} distinct_signatures={} distinct_nontrivial={} violations={} known={} wall_s={:.1} exit={}",
+        "done property={} evaluations={} distinct_signatures={} distinct_nontrivial={} violations={} known={} batch_digest={:016x} wall_s={:.1} exit={}",
         sim.property(),
         evaluations,
         signatures.len(),
         nontrivial.len(),
         violations.len(),
         stats.known.values().sum::<u64>(),
+        batch_hash,
         wall,
         exit_code
     );
